@@ -7,7 +7,7 @@ cd "$WT" || exit 9
 git checkout -q -- src
 echo "== clean: build + demo"
 cmake --build _b -j6 >/dev/null 2>&1 || { echo "clean build failed"; exit 9; }
-g++ -std=c++20 -O1 -DNO_PROBE -I"$WT/src" "$SD/demo.cc" _b/libphosg.a -lz -lpthread -o /tmp/seed_demo_clean_$PID 2>/dev/null || { echo "demo build failed (clean)"; exit 9; }
+g++ -std=c++20 -O1 -DNO_PROBE -I"$WT/src" "$SD/demo.cc" _b/libphosg.a -lz -lpthread -ldl -o /tmp/seed_demo_clean_$PID 2>/dev/null || { echo "demo build failed (clean)"; exit 9; }
 timeout 300 /tmp/seed_demo_clean_$PID >/dev/null 2>&1; DC=$?
 echo "demo on clean tree: exit $DC"
 git apply "$SD/patch.diff" || { echo "patch does not apply"; exit 9; }
@@ -15,7 +15,7 @@ echo "== mutated: build + ctest + demo"
 cmake --build _b -j6 >/dev/null 2>&1 || { echo "mutated build failed"; git checkout -q -- src; exit 9; }
 CT=$(ctest --test-dir _b -j6 --timeout 900 2>&1 | grep "tests passed" )
 echo "ctest: $CT"
-g++ -std=c++20 -O1 -DNO_PROBE -I"$WT/src" "$SD/demo.cc" _b/libphosg.a -lz -lpthread -o /tmp/seed_demo_mut_$PID 2>/dev/null
+g++ -std=c++20 -O1 -DNO_PROBE -I"$WT/src" "$SD/demo.cc" _b/libphosg.a -lz -lpthread -ldl -o /tmp/seed_demo_mut_$PID 2>/dev/null
 timeout 300 /tmp/seed_demo_mut_$PID >/dev/null 2>&1; DM=$?
 echo "demo on mutated tree: exit $DM"
 echo "== check $PID ($TIER) on mutated tree"
